@@ -1,0 +1,28 @@
+//go:build verif
+
+// Machine-checked contracts of the typed atomic pointer the multi-source operators keep their latest values in
+// (C05, C13): thin wrappers, each exactly one atomic operation on the wrapped pointer. Comments only.
+
+package xatomic
+
+//@ type Pointer
+//@   atomic p : rely true ; guar true
+
+//@ func (*Pointer).Load
+//@   props C05 C13
+//@   ensures [returns-what-is-stored|C05] result == loaded(p)
+
+//@ func (*Pointer).Store
+//@   props C05 C13
+//@   binds x val
+//@   ensures [stores-the-argument|C05] x.p.v == val
+
+//@ func (*Pointer).Swap
+//@   props C05 C13
+//@   binds x val
+//@   ensures [stores-the-argument|C05] x.p.v == val
+
+//@ func (*Pointer).CompareAndSwap
+//@   props C05 C13
+//@   binds x old nEw
+//@   ensures [reports-whether-the-exchange-happened|C05] result == cas_ok(p)
